@@ -64,9 +64,11 @@ def lattice(rep, tier, seed):
 def run(tier, seed):
     rule = ("(a) cells = Strata.tla PlanOf(C01): {compose,inverse,act,transform} x group x rotation cell x linear cell x hemisphere (second operand cells cycled) + identity, validated against exact matrix products; "
             "(b) every reachable state of ManifLattice.tla (24 Hurwitz quaternions / 4 quarter turns x bounded integer translations, velocities, time) x every generator replayed bit-exactly; "
-            "distinct = (event, group, scalar, stratum or theta/lin log2 bucket measured by the trace spec)")
+            "(c) the same operations on the covering bundle layouts of BundleLayout.tla against the block-diagonal model; distinct = (event, group, scalar, stratum or theta/lin log2 bucket measured by the trace spec)")
     holder = {}
     def extra(rep):
-        holder["lat"] = lattice(rep, tier, seed)
-        return holder["lat"]
+        from . import c11
+        # (c) bundles: compose / inverse / act / transform / identity of the covering bundle layouts (BundleLayout.tla)
+        # against the block-diagonal matrix model
+        return lattice(rep, tier, seed) + c11.collect(rep, tier, seed, prop="C01", ops={"compose", "inverse", "act", "transform", "identity"})
     return numeric.run("C01", tier, seed, lambda e, i: not i.startswith("J"), rule, extra_results=extra)
